@@ -1,43 +1,57 @@
 // crate: actix-web
-// module: types::payload::verif_kani
+// module: types::payload::verif_kani::nc
 //
 // C12 O-1 — the limit-enforcing collection loop of the bytes/string extractor
 // (`HttpMessageBody::{limit, poll}`), built field by field over a harness stream.
 // actix-web is compiled with --no-default-features, so `stream` is a plain `dev::Payload`.
-use super::*;
+// Everything lives in a module that only exists without the compression features: with them the
+// extractor's `stream` field is a `Decompress<Payload>` and this file must still compile (actix-web is
+// built with default features as a dev-dependency when another crate's counterexample is replayed).
+#[cfg(not(feature = "__compress"))]
+mod nc {
+use super::super::*;
 use core::mem::forget;
 use std::task::{RawWaker, RawWakerVTable, Waker};
 
 static POOL: [u8; 16] = [7, 1, 8, 2, 8, 1, 8, 2, 8, 4, 5, 9, 0, 4, 5, 2];
 
-/// Yields `n` chunks (slices of POOL, lengths concrete per harness) with an optional Pending before
-/// each one; counts how often it was polled.
-struct Chunks {
-    lens: [usize; 3],
-    n: usize,
-    i: usize,
-    off: usize,
-    pend: [bool; 3],
-    polls: *mut u32,
-}
+/// Yields `N` chunks (slices of POOL, lengths concrete per harness) with an optional Pending before
+/// each one; counts how often it was polled.  The stream object itself is a zero-sized type and all of
+/// its state lives in scalar statics: a stateful struct behind `Pin<Box<dyn Stream>>` is a heap object,
+/// which CBMC treats byte-wise (the first version of this harness ran >35 min / 11 GB).
+struct Chunks;
+static mut LENS: [usize; 3] = [0; 3];
+static mut N: usize = 0;
+static mut I: usize = 0;
+static mut OFF: usize = 0;
+static mut PEND0: bool = false;
+static mut PEND1: bool = false;
+static mut PEND2: bool = false;
+static mut POLLS: u32 = 0;
 
 impl Stream for Chunks {
     type Item = Result<Bytes, PayloadError>;
     fn poll_next(self: Pin<&mut Self>, _cx: &mut Context<'_>) -> Poll<Option<Self::Item>> {
-        let this = self.get_mut();
-        unsafe { *this.polls += 1 };
-        if this.i == this.n {
-            return Poll::Ready(None);
+        unsafe {
+            POLLS += 1;
+            if I == N {
+                return Poll::Ready(None);
+            }
+            let pend = match I {
+                0 => &mut PEND0,
+                1 => &mut PEND1,
+                _ => &mut PEND2,
+            };
+            if *pend {
+                *pend = false;
+                return Poll::Pending;
+            }
+            let l = LENS[I];
+            let b = Bytes::from_static(&POOL[OFF..OFF + l]);
+            OFF += l;
+            I += 1;
+            Poll::Ready(Some(Ok(b)))
         }
-        if this.pend[this.i] {
-            this.pend[this.i] = false;
-            return Poll::Pending;
-        }
-        let l = this.lens[this.i];
-        let b = Bytes::from_static(&POOL[this.off..this.off + l]);
-        this.off += l;
-        this.i += 1;
-        Poll::Ready(Some(Ok(b)))
     }
 }
 
@@ -54,9 +68,17 @@ fn body_lemma(lens: [usize; 3], n: usize) {
     let limit: usize = kani::any();
     kani::assume(limit <= 20);
     let declared: Option<usize> = if kani::any() { Some(kani::any()) } else { None };
-    let mut polls: u32 = 0;
-    let chunks = Chunks { lens, n, i: 0, off: 0, pend: kani::any(), polls: &mut polls };
-    let stream: dev::Payload = dev::Payload::Stream { payload: Box::pin(chunks) };
+    unsafe {
+        LENS = lens;
+        N = n;
+        I = 0;
+        OFF = 0;
+        PEND0 = kani::any();
+        PEND1 = kani::any();
+        PEND2 = kani::any();
+        POLLS = 0;
+    }
+    let stream: dev::Payload = dev::Payload::Stream { payload: Box::pin(Chunks) };
     let body = HttpMessageBody { limit: 262_144, length: declared, stream, buf: BytesMut::new(), err: None };
     // the public way to configure the limit (re-validates the declared length)
     let mut body = body.limit(limit);
@@ -79,10 +101,8 @@ fn body_lemma(lens: [usize; 3], n: usize) {
             assert!(declared.map_or(true, |d| d <= limit), "a declared length over the limit is never accepted");
             assert!(b.len() == total, "body is the concatenation of the chunks");
             let mut i = 0;
-            while i < 16 {
-                if i < total {
-                    assert!(b[i] == POOL[i], "bytes exact and in order");
-                }
+            while i < total {
+                assert!(b[i] == POOL[i], "bytes exact and in order");
                 i += 1;
             }
         }
@@ -90,14 +110,14 @@ fn body_lemma(lens: [usize; 3], n: usize) {
             assert!(matches!(e, PayloadError::Overflow), "the only failure is the overflow error");
             assert!(total > limit || declared.is_some_and(|d| d > limit), "overflow only if over the limit");
             if declared.is_some_and(|d| d > limit) {
-                assert!(polls == 0, "declared Content-Length over the limit fails before the stream is read");
+                assert!(unsafe { POLLS } == 0, "declared Content-Length over the limit fails before the stream is read");
             }
         }
     }
     assert!(body.buf.len() <= limit, "never holds more than the limit");
     kani::cover!(matches!(out, Poll::Ready(Ok(_))) && total == limit, "body exactly at the limit accepted");
     kani::cover!(matches!(out, Poll::Ready(Err(_))) && total == limit + 1 && declared.is_none(), "one byte over, undeclared");
-    kani::cover!(matches!(out, Poll::Ready(Err(_))) && polls == 0, "declared over the limit");
+    kani::cover!(matches!(out, Poll::Ready(Err(_))) && unsafe { POLLS } == 0, "declared over the limit");
     kani::cover!(matches!(out, Poll::Ready(Err(_))) && declared.is_some_and(|d| d <= limit), "lying Content-Length");
     kani::cover!(true, "harness end reached");
     forget(out);
@@ -105,20 +125,20 @@ fn body_lemma(lens: [usize; 3], n: usize) {
 }
 
 #[kani::proof]
-#[kani::unwind(18)]
+#[kani::unwind(11)]
 fn c12_bytes_extractor_split_3_2_4() {
     body_lemma([3, 2, 4], 3);
 }
 
 #[kani::proof]
-#[kani::unwind(18)]
+#[kani::unwind(11)]
 fn c12_bytes_extractor_split_5_4() {
     // same 9 bytes, different chunking: the outcome (as a function of limit) is the same predicate
     body_lemma([5, 4, 0], 2);
 }
 
 #[kani::proof]
-#[kani::unwind(18)]
+#[kani::unwind(11)]
 fn c12_bytes_extractor_single_and_empty() {
     body_lemma([9, 0, 0], 1);
     body_lemma([0, 0, 0], 0);
@@ -130,3 +150,4 @@ mod playback {
     use super::*;
     include!(concat!(env!("VERIF_PLAYBACK"), "/actix_web__types_payload.rs"));
 }
+} // mod nc
